@@ -40,6 +40,10 @@ struct ExecSpec {
     tasks: Vec<TaskSpec>,
     bound_quick: usize,
     bound_thorough: usize,
+    /// number of is_idle() / total_queued() observations made by an extra native thread (0 = no observer): whenever
+    /// is_idle() answers true every task accepted so far must have run; the tasks of such a scenario have a schedule point
+    /// in the synchronous part of `execute` (before the future is returned)
+    observer_checks: usize,
 }
 
 struct Shared {
@@ -78,6 +82,7 @@ impl SchedSpec for ExecSpec {
 
         // submitters
         let nsub = self.submitters.max(1);
+        let observed = self.observer_checks > 0;
         let mut submitter_threads: Vec<Box<dyn FnOnce() + Send>> = Vec::new();
         for j in 0..nsub {
             let (sh, cn, ac, sub) = (shared.clone(), counters.clone(), accepted.clone(), submitted.clone());
@@ -91,6 +96,10 @@ impl SchedSpec for ExecSpec {
                     let cn2 = cn.clone();
                     let task = ClosureTask::new(move || {
                         let cn3 = cn2.clone();
+                        if observed {
+                            // the synchronous part of Task::execute: the task is off its queue and must count as active here
+                            sched::point("h.task.sync", i, 0);
+                        }
                         Box::pin(async move {
                             cn3[i].fetch_add(1, Ordering::SeqCst);
                             Ok(())
@@ -105,6 +114,29 @@ impl SchedSpec for ExecSpec {
             }));
         }
 
+        if observed {
+            let (sh, cn, ac) = (shared.clone(), counters.clone(), accepted.clone());
+            let checks = self.observer_checks;
+            submitter_threads.push(Box::new(move || {
+                let exec = sh.lock().unwrap().exec.clone().expect("executor created in after_spawn");
+                for k in 0..checks {
+                    sched::point("h.observe", k, 0);
+                    // tasks whose submit() had returned Ok before the question was asked
+                    let before: Vec<usize> = (0..cn.len()).filter(|i| ac[*i].load(Ordering::SeqCst) == 1).collect();
+                    if exec.is_idle() {
+                        for i in before {
+                            if cn[i].load(Ordering::SeqCst) == 0 {
+                                sched::fail_now(
+                                    Fail::new("idle_with_pending_task", format!("is_idle() answered true although task {i}, accepted by submit() before the call, has not run yet (total_queued() = {}, active_tasks = {})", exec.total_queued(), exec.stats().active_tasks))
+                                        .with_class("observer"),
+                                );
+                            }
+                        }
+                    }
+                }
+            }));
+        }
+        let nsub = submitter_threads.len();
         let workers = self.workers;
         let capacity = self.capacity;
         let sh2 = shared.clone();
@@ -186,7 +218,7 @@ impl SchedSpec for ExecSpec {
                 if site.starts_with("ws.worker.") || site.starts_with("ws.find.") {
                     LAST_WORKER.with(|w| w.set(if site == "ws.worker.exit" { None } else { Some(nsub + a) }));
                     Some(nsub + a)
-                } else if site.starts_with("lock.") {
+                } else if site.starts_with("lock.") || site.starts_with("h.task.") {
                     LAST_WORKER.with(|w| w.get())
                 } else {
                     None
@@ -662,9 +694,9 @@ fn queue_stress(budget: std::time::Duration) -> Result<u64, Fail> {
             }
             last = now;
         }
-        if last_change.elapsed() > std::time::Duration::from_secs(5) {
+        if last_change.elapsed() > std::time::Duration::from_secs(10) {
             stop.store(true, Ordering::SeqCst);
-            return Err(Fail::new("deadlock", format!("owner / thief / observer on one WorkStealingQueue: at least one thread completed no call for 5 s (calls so far {:?})", last)).with_class("stress"));
+            return Err(Fail::new("deadlock", format!("owner / thief / observer on one WorkStealingQueue: at least one thread completed no call for 10 s (calls so far {:?})", last)).with_class("stress"));
         }
     }
     stop.store(true, Ordering::SeqCst);
@@ -710,6 +742,7 @@ fn main() {
                 tasks,
                 bound_quick: 1,
                 bound_thorough: 2,
+                observer_checks: 0,
             }));
         }
         // two submitters racing for the last slot of a worker's local queue (probe and push are separate lock sections)
@@ -722,6 +755,20 @@ fn main() {
                 tasks: vec![t(0, true); n],
                 bound_quick: 1,
                 bound_thorough: 2,
+                observer_checks: 0,
+            }));
+        }
+        // an observer asks is_idle() while tasks are queued / being executed (the only completion signal submit() offers)
+        for (w, c, n) in [(1usize, 2usize, 1usize), (1, 1, 2), (2, 2, 2)] {
+            reg.add(Sched(ExecSpec {
+                name: format!("WorkStealingExecutor[workers={w},capacity={c}] {n} plain task(s) + an is_idle() observer"),
+                submitters: 1,
+                workers: w,
+                capacity: c,
+                tasks: vec![t(0, true); n],
+                bound_quick: 1,
+                bound_thorough: 2,
+                observer_checks: 2,
             }));
         }
         // default-schedule grid (pre-emption bound 0): worker x capacity x task-count, incl. the counts around the
@@ -742,6 +789,7 @@ fn main() {
                         tasks: vec![t(0, true); n],
                         bound_quick: 0,
                         bound_thorough: 0,
+                        observer_checks: 0,
                     }));
                 }
             }
